@@ -260,7 +260,10 @@ Record state := mkSt {
 
 Definition init : state := mkSt 1 0 [] [] 1 None false [] [] [] 0 0.
 
-Inductive endres := EOk | EFail | EDrop.
+(** [EOk]: delivered (something was sent and acknowledged); [ESkip]: the report found no event to send -
+    it is sent only if an attribute was emitted or it is the liveness report, else skipped;
+    [EFail]: not delivered; [EDrop]: the subscriber refused *)
+Inductive endres := EOk | ESkip | EFail | EDrop.
 
 Inductive op :=
 | OChange (ep cl at_ : N)
@@ -329,6 +332,16 @@ Definition with_core (s : sub) (rep_at retry_at fail seen seen_ev : N) (del : li
 Definition sub_after_ok (x : ctx) : sub :=
   let s := x_sub x in
   with_core s (x_now x) 0 0 (x_nseen x) (x_nseen_ev x) (x_pend x ++ s_del s) (N.max (s_dev s) (x_nseen_ev x)) (x_now x).
+
+(** an empty report that is not the liveness report is not sent (im.rs [respond]); repaired code
+    ([unsent = true], [set_unsent] + [set_keep]): the watermarks are committed, [reported_at] is not *)
+Definition report_is_sent (x : ctx) : bool :=
+  (report_due_at (x_sub x) <=? x_now x) || negb (match x_pend x with [] => true | _ => false end).
+
+Definition sub_after_skip (unsent : bool) (x : ctx) : sub :=
+  let s := x_sub x in
+  with_core s (if unsent then s_rep_at s else x_now x) 0 0 (x_nseen x) (x_nseen_ev x) (x_pend x ++ s_del s)
+            (N.max (s_dev s) (x_nseen_ev x)) (s_since s).
 
 (** [set_keep_retry] + drop *)
 Definition sub_after_fail (x : ctx) : sub :=
@@ -403,7 +416,7 @@ Definition report_slot_free (st : state) : bool :=
 
 (** [ob]: when given, the emitted/skipped decision observed on the implementation is used for
     the ghost bookkeeping of [OCtxRead] instead of the model's own (monitor mode only) *)
-Definition step_gen (fixed slot : bool) (ob : option bool) (st : state) (o : op) : state * out :=
+Definition step_gen (fixed slot unsent : bool) (ob : option bool) (st : state) (o : op) : state * out :=
   match o with
   | OChange ep cl at_ =>
       let new := mkEntry ep cl at_ (next_chg st) in
@@ -434,6 +447,10 @@ Definition step_gen (fixed slot : bool) (ob : option bool) (st : state) (o : op)
       | Some x =>
           match r with
           | EOk => (report_complete slot st sid (sub_after_ok (visit_rest (tab st) (nchg st) x)) true, UBool true)
+          | ESkip =>
+              let x' := visit_rest (tab st) (nchg st) x in
+              (report_complete slot st sid (if report_is_sent x' then sub_after_ok x' else sub_after_skip unsent x') true,
+               UBool (report_is_sent x'))
           | EFail => (report_complete slot st sid (sub_after_fail x) true, UBool true)
           | EDrop => (report_complete slot st sid (x_sub x) false, UBool true)
           end
@@ -471,11 +488,11 @@ Definition step_gen (fixed slot : bool) (ob : option bool) (st : state) (o : op)
   end.
 
 (** the repaired code *)
-Definition step (st : state) (o : op) : state * out := step_gen true true None st o.
+Definition step (st : state) (o : op) : state * out := step_gen true true true None st o.
 
-Fixpoint run_gen (fixed slot : bool) (st : state) (ops : list op) : state :=
+Fixpoint run_gen (fixed slot unsent : bool) (st : state) (ops : list op) : state :=
   match ops with
   | [] => st
-  | o :: t => run_gen fixed slot (fst (step_gen fixed slot None st o)) t
+  | o :: t => run_gen fixed slot unsent (fst (step_gen fixed slot unsent None st o)) t
   end.
-Definition run := run_gen true true.
+Definition run := run_gen true true true.
